@@ -319,6 +319,23 @@ func (c *c04) values() []c04Val {
 	add(c04Val{Kind: "constant", Src: "([1] + [2])[1:]", W: l1.W})
 	add(c04Val{Kind: "expression", Src: "[1] + [\"s\"]", W: ""}) // mismatched operands
 	add(c04Val{Kind: "expression", Src: "[] + {}", W: ""})
+	for _, e := range []string{"[[]] + 1", "[1] + 1", "{} + {}", "-[[]]", "![1]", "[] and []", "[[]] * [1]", "{a:[]} + []", "1 + []", "\"s\" + []"} {
+		add(c04Val{Kind: "expression", Src: e, W: ""})
+	}
+	// elements and fields of literals (not constants; an element of a nested empty literal is an untyped empty)
+	elem := func(src, w string) { add(c04Val{Kind: "variable", Src: src, W: w}) }
+	elem("[[]][0]", "[fa")
+	elem("([[]])[0]", "[fa")
+	elem("[[[]]][0][0]", "[fa")
+	elem("[[[]]][0]", "[f[la")
+	elem("[[1]][0]", "[fn")
+	elem("[[] [1]][0]", "[fn")
+	elem("{a:[]}.a", "[fa")
+	elem("{a:[]}[\"a\"]", "[fa")
+	elem("{a:{}}.a", "{fa")
+	elem("{a:[1]}.a", "[fn")
+	elem("[{}][0]", "{fa")
+	elem("[{a:1}][0]", "{fn")
 	_ = ls
 	return out
 }
